@@ -166,6 +166,12 @@ def run_timeout(wk, scenario, timeout=2):
         before = 1 if scenario == "healthy" else 20
         s = rp.Server(wk, workers=nworkers, threads=2 if wk == "gthread" else None, config="timeout = %d\n" % before,
                       args=["--graceful-timeout", "2"], name="c11")
+    elif scenario == "healthy_draining":
+        # a worker that was told to stop (reload) and is finishing what its open connections still send: healthy, busy
+        nworkers = 1
+        timeout = 3
+        s = rp.Server(wk, workers=1, threads=2 if wk == "gthread" else None,
+                      args=["--timeout", str(timeout), "--graceful-timeout", "12", "--keep-alive", "20"], name="c11")
     elif scenario == "healthy_idle_keepalive":
         # a healthy worker holding an idle keep-alive connection whose keep-alive time is longer than --timeout
         nworkers = 1
@@ -233,6 +239,32 @@ def run_timeout(wk, scenario, timeout=2):
             return tr, {"wk": wk, "scenario": scenario, "requests": n, "failed": fails}
         # hang -> ABRT at most timeout + 1 s (master loop) later; ignored ABRT -> KILL one more loop (1 s) later
         bound = timeout * 1000 + 1000 + (1000 if scenario.startswith("ignore") else 0) + 1000 + slack
+        if scenario == "healthy_draining":
+            res = {}
+            b = s.connect(timeout=20)
+            s.get("/pid", sock=b, keepalive=True)          # an open keep-alive connection of the old worker
+
+            def long_a():
+                try:
+                    res["a"] = s.get("/sleep?t=2.5", timeout=20)[0]
+                except OSError:
+                    res["a"] = 0
+            ta = threading.Thread(target=long_a)
+            ta.start()
+            time.sleep(0.4)
+            s.signal(signal.SIGHUP)                         # the old worker is asked to stop gracefully
+            time.sleep(2.0)
+            try:
+                res["b"] = s.get("/sleep?t=2.5", sock=b, keepalive=True, timeout=20)[0]
+            except OSError:
+                res["b"] = 0
+            ta.join()
+            b.close()
+            log = s.errlog()
+            ev.append({"e": "healthy", "killed": 1 if "WORKER TIMEOUT" in log else 0})
+            ev.append({"e": "others", "ok": sum(1 for k in ("a", "b") if res.get(k) == 200), "failed": sum(1 for k in ("a", "b") if res.get(k) != 200)})
+            tr = {"scenario": scenario, "wk": wk, "timeout_ms": timeout * 1000, "bound_ms": 0, "min_ms": 0, "ev": ev}
+            return tr, {"wk": wk, "scenario": scenario, "requests": 2, "res": res, "log": log[-300:]}
         if scenario == "healthy_idle_keepalive":
             a = s.connect(timeout=timeout * 8)
             st, body, info = s.get("/pid", sock=a, keepalive=True)
@@ -378,13 +410,14 @@ def run_timeout(wk, scenario, timeout=2):
 
 def timeout_side(ctx):
     plan = [("sync", "hang"), ("gthread", "stop"), ("sync", "healthy"), ("gevent", "healthy"), ("sync", "healthy2"),
-            ("sync", "healthy_busy"), ("sync", "stop_busymaster"), ("sync", "hup_hang"), ("sync", "hup_healthy"), ("gthread", "healthy_full"), ("gthread", "healthy_idle_keepalive")] if ctx.quick else \
+            ("sync", "healthy_busy"), ("sync", "stop_busymaster"), ("sync", "hup_hang"), ("sync", "hup_healthy"), ("gthread", "healthy_full"), ("gthread", "healthy_idle_keepalive"), ("gevent", "healthy_draining")] if ctx.quick else \
         [(wk, sc) for wk in ("sync", "gthread", "gevent", "eventlet") for sc in ("hang", "stop", "ignore", "healthy")] + \
         [("sync", "healthy2"), ("gthread", "healthy2"), ("sync", "healthy_busy"), ("gthread", "healthy_busy"),
          ("sync", "stop_busymaster"), ("gevent", "stop_busymaster"), ("sync", "hang_busymaster"),
          ("sync", "hup_hang"), ("sync", "hup_healthy"), ("gthread", "hup_stop"), ("gevent", "hup_healthy"), ("gthread", "healthy_full"), ("gthread", "healthy_idle_keepalive"), ("gevent", "healthy_idle_keepalive"),
-         ("eventlet", "healthy_idle_keepalive")]
-    results = _parallel(plan, lambda a, i: run_timeout(a[0], a[1]), par=11)
+         ("eventlet", "healthy_idle_keepalive"), ("gevent", "healthy_draining"), ("eventlet", "healthy_draining"),
+         ("gthread", "healthy_draining")]
+    results = _parallel(plan, lambda a, i: run_timeout(a[0], a[1]), par=12)
     traces = [r[0] for r in results]
     metas = [r[1] for r in results]
     verdicts, stats = tlc.validate_batch("TimeoutTrace", "TimeoutTrace.cfg", traces, name="TimeoutTrace_C11")
